@@ -29,11 +29,11 @@ ASSUMPTIONS = [
 ]
 
 # ---------------------------------------------------------------------------------------------- bounds
-SDL = {"quick": (9, 5, 10), "thorough": (12, 6, 13)}  # (max length, alphabet size, max npartitions/chunksize)
+SDL = {"quick": (8, 5, 9), "thorough": (12, 6, 13)}  # (max length, alphabet size, max npartitions/chunksize)
 PVW = {"quick": (6, 7), "thorough": (7, 9)}  # (alphabet size = max #vals, max npartitions)
 RQ_INT = {"quick": [(4, 4)], "thorough": [(5, 4), (6, 3)]}  # (max length, alphabet size) exhaustive UNSORTED sequences
 RQ_OTHER = {"quick": (3, 4), "thorough": (4, 4)}
-SI = {"quick": (3, 4), "thorough": (4, 4)}
+SI = {"quick": (3, 3), "thorough": (4, 4)}
 KMAX_Q = {"quick": 4, "thorough": 5}  # requested npartitions 1..KMAX for rq / setidx
 MAXPARTS = 3
 WEIGHTS = (1.0, 2.0, 7.0)
